@@ -377,6 +377,15 @@ Section Env.
     : list (Z * bdef) :=
     fold_left (basin_step fit) (f_basins f) [].
 
+  (* a rewritten definition is written through RTDCWriter(dst_h5file), which
+     brands the software version of the destination *)
+  Definition basin_rewrites (fit : list Z) (f : h5file) : bool :=
+    existsb (fun kb =>
+               let used := filter (fun x => memZ x fit) (b_feats (snd kb)) in
+               b_internal (snd kb) && negb (idx_eqb used [])
+               && negb (idx_eqb used (b_feats (snd kb))))
+            (f_basins f).
+
   (* the loop over feature_iter; state = (events, basin_events) of dst *)
   Definition feat_step (inc_basins : bool) (f : h5file)
              (st : list (Z * node) * list (Z * dset)) (feat : Z)
@@ -419,7 +428,9 @@ Section Env.
                   else [] in
     let basins := if inc_basins then basin_definition_copy fit f else [] in
     let '(ev, bev) := fold_left (feat_step inc_basins f) fit ([], []) in
-    mkF (f_attrs f) ev bev logs tables basins (f_soft f).
+    mkF (f_attrs f) ev bev logs tables basins
+        (if inc_basins && basin_rewrites fit f then bump_version (f_soft f)
+         else f_soft f).
 
   (* ---- task wrappers --------------------------------------------------- *)
   (* log names: the harness reserves these numbers *)
